@@ -112,16 +112,19 @@ def gen_signature(rng: Any) -> dict[str, Any]:
     for i in range(rng.randint(1, 4)):
         t = rng.choice(["RA", "RA", "RB", "RB", "RC", "RC", "RD"])
         name = rng.choice(NAMES)
-        if (t, name) in used:
-            continue
+        twin = next((j for j in inj if (j["type"], j["name"]) == (t, name)), None)
+        if twin is not None and (rng.random() < 0.7 or twin["state"] not in ("static", "missing", "inherited_static")):
+            continue  # (now and then the same resource is injected into two parameters - say once as optional, once as required)
         used.add((t, name))
         spelling = rng.choice(SPELLINGS)
         inj.append({"arg": f"r{i}", "type": t, "name": name, "spelling": spelling, "as_string": rng.random() < 0.4,
-                    "kwonly": rng.random() < 0.5, "state": rng.choice(STATES), "explicit_default_name": rng.random() < 0.5})
+                    "kwonly": rng.random() < 0.5, "state": rng.choice(STATES) if twin is None else "twin_of:" + twin["arg"],
+                    "explicit_default_name": rng.random() < 0.5})
     # a later optional parameter whose resource only comes into being as a side effect of generating an earlier one (a
     # connection factory that also publishes its cache): lookups happen in the order of the parameters
     order = [i for i in inj if not i["kwonly"]] + [i for i in inj if i["kwonly"]]
-    if len(order) >= 2 and rng.random() < 0.2:
+    has_twins = any(i["state"].startswith("twin_of:") for i in inj)
+    if len(order) >= 2 and rng.random() < 0.2 and not has_twins:
         a, b = order[0], order[-1]
         a["state"] = rng.choice(["sync_factory", "async_factory"])
         b["state"] = "side_effect_of:" + a["arg"]
